@@ -553,7 +553,7 @@ func classify(tc tcase) (bool, []string) {
 }
 
 func TestC10Close(t *testing.T) {
-	ev.Check(t, 1500, 8000, func(rt *rapid.T) {
+	ev.Check(t, 3000, 12000, func(rt *rapid.T) {
 		tc := genCase(rt)
 		nt, classes := classify(tc)
 		ev.Case(nt, tc.String(), classes...)
